@@ -18,6 +18,9 @@ P = {
  "C12": ("Every history up to depth 4 (thorough 5) over a 12-operation add/remove alphabet and seeded random 50-step histories over all add/remove forms are replayed on a real NoteContainer and compared after every step with a set model (content order, length, membership, equality, unique names, four consonance predicates); all chord-shorthand x root, interval-shorthand and numeral x key constructors are enumerated for the octave-4 ascending voicing.",
          "Set model and pitch arithmetic in the check; chord/progression note lists taken from mingus (their content is C06/C08's subject).",
          "bounded-exhaustive history enumeration + model-based Hypothesis histories vs set model"),
+ "C14": ("Every track history up to depth 4 (thorough 5) over a 9-operation alphabet x instruments, plus seeded random 40-step histories over all content forms, values, 30 keys, 11 meters and five instrument kinds (notes on and beyond each range edge), are replayed on real Tracks and compared after every step with a list-of-exact-bars model; from_chords on nested chord lists and compositions with generated track selections are checked against their own models.",
+         "Bar model from C13; instrument ranges as own pitch numbers; expected chord contents via NoteContainer.from_chord (C12/C06's subject).",
+         "bounded-exhaustive history enumeration + model-based Hypothesis histories vs exact-rational track model"),
 }
 DEFAULT_NOTE = "Oracle = independent reference model under /verif/vlib/ref; bounds per DESIGN.md section 4."
 
